@@ -198,6 +198,9 @@ func (r *Run) applyContract(fr *Frame, st *State, instr ssa.Instruction, ct *Con
 	for _, u := range ct.Uses {
 		st.uses[u] = true
 	}
+	for _, u := range ct.Needs {
+		r.needs[u] = true
+	}
 	// callee preconditions
 	for _, cl := range ct.Requires {
 		g := r.evalBool(env, cl.Expr)
